@@ -251,7 +251,10 @@ func GetAttr(v Value, attr Value, args ...Value) (Value, error) {
 	switch r.Kind() {
 	case reflect.Struct:
 		strval := CoerceString(attr)
-		retval = r.FieldByName(strval)
+		// Unexported fields cannot be read through reflection.
+		if f, ok := r.Type().FieldByName(strval); ok && f.PkgPath == "" {
+			retval = r.FieldByName(strval)
+		}
 		if !retval.IsValid() {
 			var err error
 			retval, err = getMethod(v, strval)
@@ -260,7 +263,11 @@ func GetAttr(v Value, attr Value, args ...Value) (Value, error) {
 			}
 		}
 	case reflect.Map:
-		retval = r.MapIndex(reflect.ValueOf(attr))
+		key, ok := convertArg(attr, r.Type().Key())
+		if !ok {
+			return nil, fmt.Errorf("getattr: cannot use \"%v\" as key of \"%v\"", attr, v)
+		}
+		retval = r.MapIndex(key)
 	case reflect.Slice, reflect.Array:
 		index := int(CoerceNumber(attr))
 		if index >= 0 && index < r.Len() {
@@ -275,12 +282,16 @@ func GetAttr(v Value, attr Value, args ...Value) (Value, error) {
 		if t.NumOut() > 1 {
 			return nil, fmt.Errorf("getattr: multiple return values unsupported, called method \"%s\" on \"%v\"", attr, v)
 		}
-		rargs := make([]reflect.Value, len(args))
-		for k, v := range args {
-			rargs[k] = reflect.ValueOf(v)
+		if t.IsVariadic() || t.NumIn() != len(args) {
+			return nil, fmt.Errorf("getattr: method \"%s\" on \"%v\" expects %d parameter(s), %d given", attr, v, t.NumIn(), len(args))
 		}
-		if t.NumIn() != len(rargs) {
-			return nil, fmt.Errorf("getattr: method \"%s\" on \"%v\" expects %d parameter(s), %d given", attr, v, t.NumIn(), len(rargs))
+		rargs := make([]reflect.Value, len(args))
+		for k, arg := range args {
+			rarg, ok := convertArg(arg, t.In(k))
+			if !ok {
+				return nil, fmt.Errorf("getattr: cannot use \"%v\" as parameter %d of method \"%s\" on \"%v\"", arg, k+1, attr, v)
+			}
+			rargs[k] = rarg
 		}
 		res := retval.Call(rargs)
 		if len(res) == 0 {
@@ -289,6 +300,34 @@ func GetAttr(v Value, attr Value, args ...Value) (Value, error) {
 		retval = res[0]
 	}
 	return retval.Interface(), nil
+}
+
+// convertArg returns val as a reflect.Value usable where the given type is
+// expected: a map key or a method parameter. Numbers are converted between
+// numeric kinds when no information is lost, since every number in a template
+// is a float64.
+func convertArg(val Value, typ reflect.Type) (reflect.Value, bool) {
+	r := reflect.ValueOf(val)
+	if !r.IsValid() {
+		switch typ.Kind() {
+		case reflect.Interface, reflect.Ptr, reflect.Map, reflect.Slice, reflect.Func, reflect.Chan:
+			return reflect.Zero(typ), true
+		}
+		return r, false
+	}
+	if r.Type().AssignableTo(typ) {
+		return r, true
+	}
+	isNum := func(k reflect.Kind) bool {
+		return k >= reflect.Int && k <= reflect.Float64 && k != reflect.Uintptr
+	}
+	if isNum(r.Kind()) && isNum(typ.Kind()) {
+		c := r.Convert(typ)
+		if c.Convert(r.Type()).Interface() == r.Interface() {
+			return c, true
+		}
+	}
+	return r, false
 }
 
 func getMethod(v Value, name string) (reflect.Value, error) {
